@@ -1,13 +1,1093 @@
-//! C11 — not yet implemented
-use crate::core::{Ctx, Outcome};
-use serde_json::Value;
+//! C11 — Instrument/asset/exchange indices are dense, unique and consistently resolved.
+//!
+//! E-SEQ over configurations, three layers, all on the real code:
+//!
+//! * **index**   every sequence (with repetition => duplicates, every insertion order) of length <= L over a
+//!               menu of 8 instrument definitions (spot / perpetual / future / option, settlement-only and
+//!               quantity-unit-only assets, 3 exchanges, asset names shared between exchanges) is fed to the
+//!               real `IndexedInstrumentsBuilder`; the oracle is computed from the *definitions*.
+//! * **derived** for every distinct set of definitions (all 255 non-empty subsets): the real
+//!               `EngineStateBuilder` (with one distinct seeded balance per asset), `update_from_account` by
+//!               index, `FnvHashMap<ExchangeId, UnindexedAccountSnapshot>::from(&state)`.
+//! * **links**   for every distinct set x every subset of its exchanges that gets a (stub) client x every
+//!               `add_live` order: the real `ExecutionBuilder::build`, its init futures and manager futures
+//!               driven by hand on a paused current-thread runtime (E-ENV).
+//!
+//! Oracle rules (each from a clause of the statement):
+//!   dense-keys  "receives exactly one index equal to its position"
+//!   unique / count / complete  "every distinct exchange, exchange-asset and instrument receives exactly one index"
+//!   lookup      "lookups by name and by index are mutual inverses" (+ absent names/indices are errors)
+//!   resolve     "every instrument's exchange and asset references resolve to the entries it was defined with"
+//!   order-independence  "the result does not depend on insertion order"
+//!   derived/*   "Engine state, connectivity state and execution-link tables ... hold, at each index, the entry
+//!               of exactly the entity with that index"
+//!
+//! Domain restrictions (assumptions): `name_internal` identifies an instrument, and an exchange names an asset
+//! one way (documented contracts: "unique across all exchanges").
 
-pub fn run(_ctx: &Ctx) -> Outcome {
-    eprintln!("MACHINERY: C11 not implemented");
-    std::process::exit(2)
+use super::common::{EState, strategy_id, t_plus, t0};
+use crate::core::{Ctx, Distinct, Outcome, Samples, hash_of};
+use crate::explore::env::{flag_waker, paused_rt, poll_quiesce};
+use barter::{
+    Timed,
+    engine::state::{
+        EngineState, connectivity::Health, global::DefaultGlobalData,
+        instrument::data::DefaultInstrumentMarketData,
+    },
+    execution::{
+        AccountStreamEvent, builder::ExecutionBuilder, request::ExecutionRequest,
+    },
+    engine::execution_tx::ExecutionTxMap,
+};
+use barter_execution::{
+    AccountEvent, AccountEventKind, InstrumentAccountSnapshot, UnindexedAccountEvent,
+    UnindexedAccountSnapshot,
+    balance::{AssetBalance, Balance},
+    client::ExecutionClient,
+    error::{UnindexedClientError, UnindexedOrderError},
+    order::{
+        Order, OrderEvent, OrderKey, OrderKind, TimeInForce,
+        id::{ClientOrderId, OrderId},
+        request::{OrderRequestCancel, OrderRequestOpen, UnindexedOrderResponseCancel},
+        state::{Cancelled, Open, OrderState},
+    },
+    trade::Trade,
+};
+use barter_instrument::{
+    Keyed, Side, Underlying,
+    asset::{
+        Asset, AssetIndex, ExchangeAsset, QuoteAsset,
+        name::{AssetNameExchange, AssetNameInternal},
+    },
+    exchange::{ExchangeId, ExchangeIndex},
+    index::IndexedInstruments,
+    instrument::{
+        Instrument, InstrumentIndex,
+        kind::{
+            InstrumentKind,
+            future::FutureContract,
+            option::{OptionContract, OptionExercise, OptionKind},
+            perpetual::PerpetualContract,
+        },
+        name::{InstrumentNameExchange, InstrumentNameInternal},
+        quote::InstrumentQuoteAsset,
+        spec::{
+            InstrumentSpec, InstrumentSpecNotional, InstrumentSpecPrice, InstrumentSpecQuantity,
+            OrderQuantityUnits,
+        },
+    },
+};
+use barter_integration::{channel::Tx, snapshot::Snapshot};
+use chrono::{DateTime, Utc};
+use fnv::FnvHashMap;
+use itertools::Itertools;
+use rayon::prelude::*;
+use rust_decimal::Decimal;
+use serde_json::{Value, json};
+use std::{
+    cell::Cell,
+    collections::{BTreeMap, BTreeSet},
+    future::Future,
+    pin::Pin,
+    sync::{
+        Arc, Mutex, Once,
+        atomic::{AtomicU64, Ordering},
+    },
+    task::Poll,
+    time::Duration,
+};
+
+pub type Def = Instrument<ExchangeId, Asset>;
+pub type Viol = (String, String);
+
+/// Exchanges of the menu, in `ExchangeId` sort order.
+pub const EX: [ExchangeId; 3] = [ExchangeId::BinanceSpot, ExchangeId::Kraken, ExchangeId::Okx];
+
+// ---------------------------------------------------------------------------------------------------------
+// panic containment: a panic of the code under test inside `guarded` is reported as a value (and is silent);
+// any other panic is a machinery failure and keeps the default hook.
+// ---------------------------------------------------------------------------------------------------------
+
+thread_local! { static GUARDED: Cell<bool> = const { Cell::new(false) }; }
+
+pub fn install_quiet_hook() {
+    static ONCE: Once = Once::new();
+    ONCE.call_once(|| {
+        let default = std::panic::take_hook();
+        std::panic::set_hook(Box::new(move |info| {
+            if !GUARDED.with(|g| g.get()) {
+                default(info)
+            }
+        }));
+    });
 }
 
-pub fn replay(_ctx: &Ctx, _case: &Value) {
-    eprintln!("MACHINERY: C11 not implemented");
-    std::process::exit(2)
+pub fn guarded<T>(f: impl FnOnce() -> T) -> Result<T, String> {
+    let before = GUARDED.with(|g| g.replace(true));
+    let r = std::panic::catch_unwind(std::panic::AssertUnwindSafe(f));
+    GUARDED.with(|g| g.set(before));
+    r.map_err(|e| {
+        e.downcast_ref::<String>()
+            .cloned()
+            .or_else(|| e.downcast_ref::<&str>().map(|s| s.to_string()))
+            .unwrap_or_else(|| "panic".to_string())
+    })
+}
+
+// ---------------------------------------------------------------------------------------------------------
+// the menu
+// ---------------------------------------------------------------------------------------------------------
+
+fn a(internal: &str, exchange: &str) -> Asset {
+    Asset::new(internal, exchange)
+}
+
+fn spec(unit: OrderQuantityUnits<Asset>) -> Option<InstrumentSpec<Asset>> {
+    Some(InstrumentSpec {
+        price: InstrumentSpecPrice { min: Decimal::new(1, 1), tick_size: Decimal::new(1, 1) },
+        quantity: InstrumentSpecQuantity { unit, min: Decimal::new(1, 3), increment: Decimal::new(1, 3) },
+        notional: InstrumentSpecNotional { min: Decimal::from(10) },
+    })
+}
+
+fn expiry() -> DateTime<Utc> {
+    DateTime::<Utc>::from_timestamp(1_743_120_000, 0).unwrap()
+}
+
+/// 8 definitions: 3 on BinanceSpot, 2 on Kraken, 3 on Okx. `btc`/`usdt` exist on every exchange (Kraken calls
+/// btc `XBT`), `usd` on Kraken and Okx, `bnb` only as a quantity unit, `usdc` only as a settlement asset;
+/// `BTCUSDT` is an exchange name on both BinanceSpot and Okx. Internal names are chosen so that their
+/// lexicographic order differs from the (exchange, name) index order.
+pub fn menu() -> Vec<Def> {
+    use ExchangeId::*;
+    use InstrumentQuoteAsset::UnderlyingQuote as UQ;
+    vec![
+        Instrument::new(BinanceSpot, "btc_usdt.binance", "BTCUSDT",
+            Underlying::new(a("btc", "BTC"), a("usdt", "USDT")), UQ, InstrumentKind::Spot, None),
+        Instrument::new(BinanceSpot, "eth_usdt.binance", "ETHUSDT",
+            Underlying::new(a("eth", "ETH"), a("usdt", "USDT")), UQ, InstrumentKind::Spot,
+            spec(OrderQuantityUnits::Asset(a("bnb", "BNB")))),
+        Instrument::new(BinanceSpot, "eth_btc.binance", "ETHBTC",
+            Underlying::new(a("eth", "ETH"), a("btc", "BTC")), UQ, InstrumentKind::Spot,
+            spec(OrderQuantityUnits::Asset(a("eth", "ETH")))),
+        Instrument::new(Kraken, "xbt_usdt.kraken", "XBT/USDT",
+            Underlying::new(a("btc", "XBT"), a("usdt", "USDT")), UQ, InstrumentKind::Spot, None),
+        Instrument::new(Kraken, "btc_usd_perp.kraken", "PI_XBTUSD",
+            Underlying::new(a("btc", "XBT"), a("usd", "ZUSD")), UQ,
+            InstrumentKind::Perpetual(PerpetualContract { contract_size: Decimal::ONE, settlement_asset: a("usdc", "USDC") }),
+            None),
+        Instrument::new(Okx, "btc_usdt.okx", "BTCUSDT",
+            Underlying::new(a("btc", "BTC"), a("usdt", "USDT")), UQ, InstrumentKind::Spot, None),
+        Instrument::new(Okx, "btc_usdt_fut.okx", "BTC-USDT-250328",
+            Underlying::new(a("btc", "BTC"), a("usdt", "USDT")), UQ,
+            InstrumentKind::Future(FutureContract { contract_size: Decimal::new(1, 2), settlement_asset: a("usdt", "USDT"), expiry: expiry() }),
+            spec(OrderQuantityUnits::Contract)),
+        Instrument::new(Okx, "btc_usd_opt.okx", "BTC-USD-250328-50000-C",
+            Underlying::new(a("btc", "BTC"), a("usd", "USD")), UQ,
+            InstrumentKind::Option(OptionContract {
+                contract_size: Decimal::ONE, settlement_asset: a("btc", "BTC"), kind: OptionKind::Call,
+                exercise: OptionExercise::European, expiry: expiry(), strike: Decimal::from(50_000),
+            }),
+            spec(OrderQuantityUnits::Quote)),
+    ]
+}
+
+/// The asset references of a definition, by role.
+pub fn roles(d: &Def) -> Vec<(&'static str, Asset)> {
+    let mut v = vec![("base", d.underlying.base.clone()), ("quote", d.underlying.quote.clone())];
+    if let Some(s) = d.kind.settlement_asset() {
+        v.push(("settlement", s.clone()));
+    }
+    if let Some(spec) = &d.spec {
+        if let OrderQuantityUnits::Asset(asset) = &spec.quantity.unit {
+            v.push(("unit", asset.clone()));
+        }
+    }
+    v
+}
+
+pub fn build_indexed(seq: &[usize], menu: &[Def]) -> Result<IndexedInstruments, String> {
+    guarded(|| {
+        let mut b = IndexedInstruments::builder();
+        for &i in seq {
+            b = b.add_instrument(menu[i].clone());
+        }
+        b.build()
+    })
+}
+
+// ---------------------------------------------------------------------------------------------------------
+// layer "index": oracle from the definitions
+// ---------------------------------------------------------------------------------------------------------
+
+/// dense keys + uniqueness + exactly the distinct defined entities.
+fn check_table<V: Ord + std::fmt::Debug>(kind: &str, got: &[(usize, V)], want: &BTreeSet<V>, out: &mut Vec<Viol>) {
+    for (pos, (key, v)) in got.iter().enumerate() {
+        if *key != pos {
+            out.push((
+                format!("C11/dense-keys/{kind}/key-differs-from-position"),
+                format!("{kind} at position {pos} carries key {key}: {v:?}"),
+            ));
+            break;
+        }
+    }
+    let sorted: Vec<&V> = got.iter().map(|(_, v)| v).sorted().collect();
+    if let Some(w) = sorted.windows(2).find(|w| w[0] == w[1]) {
+        out.push((
+            format!("C11/unique/{kind}/entity-indexed-twice"),
+            format!("{kind} {:?} has more than one index", w[0]),
+        ));
+    }
+    if got.len() != want.len() {
+        let dir = if got.len() > want.len() { "more-than-distinct" } else { "fewer-than-distinct" };
+        out.push((
+            format!("C11/count/{kind}/{dir}"),
+            format!("{} {kind} indexed, {} distinct defined", got.len(), want.len()),
+        ));
+    }
+    let got_set: BTreeSet<&V> = got.iter().map(|(_, v)| v).collect();
+    if let Some(missing) = want.iter().find(|w| !got_set.contains(w)) {
+        out.push((
+            format!("C11/complete/{kind}/defined-entity-missing"),
+            format!("defined {kind} {missing:?} has no index"),
+        ));
+    }
+    if let Some(extra) = got_set.iter().find(|g| !want.contains(**g)) {
+        out.push((
+            format!("C11/complete/{kind}/undefined-entity-present"),
+            format!("indexed {kind} {extra:?} was never defined"),
+        ));
+    }
+}
+
+/// Map an indexed instrument back to a definition using *positions* of the asset table.
+fn reconstruct(
+    ix: &IndexedInstruments,
+    inst: &Instrument<Keyed<ExchangeIndex, ExchangeId>, AssetIndex>,
+) -> Result<Def, String> {
+    inst.clone()
+        .map_exchange_key(inst.exchange.value)
+        .map_asset_key_with_lookup(|k: &AssetIndex| {
+            ix.assets()
+                .get(k.index())
+                .map(|ka| ka.value.asset.clone())
+                .ok_or_else(|| format!("asset index {k} out of range"))
+        })
+}
+
+pub fn check_indexed(defs: &[&Def], ix: &IndexedInstruments, menu: &[Def]) -> Vec<Viol> {
+    let mut out = Vec::new();
+    let want_ex: BTreeSet<ExchangeId> = defs.iter().map(|d| d.exchange).collect();
+    let want_as: BTreeSet<ExchangeAsset<Asset>> = defs
+        .iter()
+        .flat_map(|d| roles(d).into_iter().map(move |(_, asset)| ExchangeAsset { exchange: d.exchange, asset }))
+        .collect();
+    let want_in: BTreeSet<Def> = defs.iter().map(|d| (*d).clone()).collect();
+
+    // ---- dense, unique, complete
+    let got_ex: Vec<(usize, ExchangeId)> = ix.exchanges().iter().map(|k| (k.key.index(), k.value)).collect();
+    check_table("exchanges", &got_ex, &want_ex, &mut out);
+    let got_as: Vec<(usize, ExchangeAsset<Asset>)> =
+        ix.assets().iter().map(|k| (k.key.index(), k.value.clone())).collect();
+    check_table("assets", &got_as, &want_as, &mut out);
+    let mut got_in: Vec<(usize, Def)> = Vec::new();
+    for k in ix.instruments() {
+        match reconstruct(ix, &k.value) {
+            Ok(d) => got_in.push((k.key.index(), d)),
+            Err(e) => out.push((
+                "C11/resolve/asset-reference/unresolvable".into(),
+                format!("instrument {} ({}): {e}", k.key, k.value.name_internal),
+            )),
+        }
+    }
+    if got_in.len() == ix.instruments().len() {
+        check_table("instruments", &got_in, &want_in, &mut out);
+    }
+
+    // ---- lookups are mutual inverses; absent entities are errors
+    for (pos, k) in ix.exchanges().iter().enumerate() {
+        if ix.find_exchange(ExchangeIndex(pos)).ok() != Some(k.value) {
+            out.push(("C11/lookup/exchanges/index-to-entity".into(),
+                format!("find_exchange({pos}) = {:?}, entry at position is {}", ix.find_exchange(ExchangeIndex(pos)), k.value)));
+        }
+        if ix.find_exchange_index(k.value).ok() != Some(ExchangeIndex(pos)) {
+            out.push(("C11/lookup/exchanges/entity-to-index".into(),
+                format!("find_exchange_index({}) = {:?}, position is {pos}", k.value, ix.find_exchange_index(k.value))));
+        }
+    }
+    if ix.find_exchange(ExchangeIndex(ix.exchanges().len())).is_ok() {
+        out.push(("C11/lookup/exchanges/absent-index-found".into(), "find_exchange(len) is Ok".into()));
+    }
+    for x in EX.iter().chain([ExchangeId::Mock].iter()) {
+        if !want_ex.contains(x) && ix.find_exchange_index(*x).is_ok() {
+            out.push(("C11/lookup/exchanges/absent-entity-found".into(),
+                format!("find_exchange_index({x}) = {:?} but {x} was never defined", ix.find_exchange_index(*x))));
+        }
+    }
+    for (pos, k) in ix.assets().iter().enumerate() {
+        if ix.find_asset(AssetIndex(pos)).ok() != Some(&k.value) {
+            out.push(("C11/lookup/assets/index-to-entity".into(),
+                format!("find_asset({pos}) = {:?}, entry at position is {:?}", ix.find_asset(AssetIndex(pos)), k.value)));
+        }
+        let r = ix.find_asset_index(k.value.exchange, &k.value.asset.name_internal);
+        if r.as_ref().ok() != Some(&AssetIndex(pos)) {
+            out.push(("C11/lookup/assets/entity-to-index".into(),
+                format!("find_asset_index({}, {}) = {:?}, position is {pos}", k.value.exchange, k.value.asset.name_internal, r.ok())));
+        }
+    }
+    if ix.find_asset(AssetIndex(ix.assets().len())).is_ok() {
+        out.push(("C11/lookup/assets/absent-index-found".into(), "find_asset(len) is Ok".into()));
+    }
+    let asset_names: BTreeSet<AssetNameInternal> =
+        menu.iter().flat_map(|d| roles(d).into_iter().map(|(_, asset)| asset.name_internal)).collect();
+    for x in EX {
+        for n in &asset_names {
+            let defined = want_as.iter().any(|w| w.exchange == x && w.asset.name_internal == *n);
+            if !defined {
+                if let Ok(i) = ix.find_asset_index(x, n) {
+                    out.push(("C11/lookup/assets/absent-entity-found".into(),
+                        format!("find_asset_index({x}, {n}) = {i} but that exchange-asset was never defined")));
+                }
+            }
+        }
+    }
+    for (pos, k) in ix.instruments().iter().enumerate() {
+        if ix.find_instrument(InstrumentIndex(pos)).ok() != Some(&k.value) {
+            out.push(("C11/lookup/instruments/index-to-entity".into(),
+                format!("find_instrument({pos}) differs from the entry at that position ({})", k.value.name_internal)));
+        }
+        let r = ix.find_instrument_index(k.value.exchange.value, &k.value.name_internal);
+        if r.as_ref().ok() != Some(&InstrumentIndex(pos)) {
+            out.push(("C11/lookup/instruments/entity-to-index".into(),
+                format!("find_instrument_index({}, {}) = {:?}, position is {pos}", k.value.exchange.value, k.value.name_internal, r.ok())));
+        }
+    }
+    if ix.find_instrument(InstrumentIndex(ix.instruments().len())).is_ok() {
+        out.push(("C11/lookup/instruments/absent-index-found".into(), "find_instrument(len) is Ok".into()));
+    }
+    for x in EX {
+        for d in menu {
+            let defined = want_in.iter().any(|w| w.exchange == x && w.name_internal == d.name_internal);
+            if !defined {
+                if let Ok(i) = ix.find_instrument_index(x, &d.name_internal) {
+                    out.push(("C11/lookup/instruments/absent-entity-found".into(),
+                        format!("find_instrument_index({x}, {}) = {i} but it was never defined there", d.name_internal)));
+                }
+            }
+        }
+    }
+
+    // ---- every instrument's references resolve to what it was defined with
+    for k in ix.instruments() {
+        let inst = &k.value;
+        let Some(def) = want_in.iter().find(|d| d.exchange == inst.exchange.value && d.name_internal == inst.name_internal) else {
+            continue; // reported by complete/undefined-entity-present
+        };
+        let ex_at_key = ix.exchanges().get(inst.exchange.key.index()).map(|e| e.value);
+        if ex_at_key != Some(def.exchange) || ix.find_exchange(inst.exchange.key).ok() != Some(def.exchange) {
+            out.push(("C11/resolve/exchange/refers-to-other-entity".into(),
+                format!("{} defined on {} carries exchange key {} which is {:?}", inst.name_internal, def.exchange, inst.exchange.key, ex_at_key)));
+        }
+        let mut got_roles: Vec<(&'static str, AssetIndex)> =
+            vec![("base", inst.underlying.base), ("quote", inst.underlying.quote)];
+        if let Some(s) = inst.kind.settlement_asset() {
+            got_roles.push(("settlement", *s));
+        }
+        if let Some(spec) = &inst.spec {
+            if let OrderQuantityUnits::Asset(u) = &spec.quantity.unit {
+                got_roles.push(("unit", *u));
+            }
+        }
+        for (role, asset) in roles(def) {
+            let want = ExchangeAsset { exchange: def.exchange, asset };
+            let Some((_, idx)) = got_roles.iter().find(|(r, _)| *r == role) else {
+                out.push((format!("C11/resolve/{role}/reference-dropped"), format!("{} lost its {role} asset", inst.name_internal)));
+                continue;
+            };
+            match ix.find_asset(*idx) {
+                Ok(got) if *got == want => {}
+                Ok(got) => {
+                    let cause = if got.asset.name_internal == want.asset.name_internal && got.exchange != want.exchange {
+                        "same-name-on-other-exchange"
+                    } else {
+                        "refers-to-other-entity"
+                    };
+                    out.push((format!("C11/resolve/{role}/{cause}"),
+                        format!("{}: {role} index {idx} is {got:?}, defined with {want:?}", inst.name_internal)));
+                }
+                Err(e) => out.push((format!("C11/resolve/{role}/unresolvable"), format!("{}: {role} index {idx}: {e}", inst.name_internal))),
+            }
+        }
+        match reconstruct(ix, inst) {
+            Ok(back) if back == *def => {}
+            Ok(back) => out.push(("C11/resolve/definition/fields-changed".into(),
+                format!("indexed {:?} maps back to {back:?}, defined as {def:?}", inst.name_internal))),
+            Err(_) => {}
+        }
+    }
+    out
+}
+
+// ---------------------------------------------------------------------------------------------------------
+// layer "derived": engine state tables
+// ---------------------------------------------------------------------------------------------------------
+
+fn seeded(i: usize) -> Balance {
+    Balance::new(Decimal::from(1000 + i as i64), Decimal::from(i as i64))
+}
+fn updated(i: usize) -> Balance {
+    Balance::new(Decimal::from(5000 + i as i64), Decimal::from(7 + i as i64))
+}
+
+pub fn build_state(ix: &IndexedInstruments) -> Result<EState, String> {
+    guarded(|| {
+        EngineState::builder(ix, DefaultGlobalData, DefaultInstrumentMarketData::default)
+            .time_engine_start(t0())
+            .balances(ix.assets().iter().map(|ka| {
+                Keyed::new(
+                    ExchangeAsset::<AssetNameInternal>::new(ka.value.exchange, ka.value.asset.name_internal.clone()),
+                    seeded(ka.key.index()),
+                )
+            }))
+            .build()
+    })
+}
+
+fn open_snapshot(ex: ExchangeIndex, inst: InstrumentIndex, cid: &str) -> AccountEvent {
+    AccountEvent {
+        exchange: ex,
+        kind: AccountEventKind::OrderSnapshot(Snapshot(Order {
+            key: OrderKey { exchange: ex, instrument: inst, strategy: strategy_id(), cid: ClientOrderId::new(cid) },
+            side: Side::Buy,
+            price: Decimal::from(100),
+            quantity: Decimal::ONE,
+            kind: OrderKind::Limit,
+            time_in_force: TimeInForce::GoodUntilCancelled { post_only: false },
+            state: OrderState::active(Open { id: OrderId::new(format!("x-{cid}")), time_exchange: t_plus(1), filled_quantity: Decimal::ZERO }),
+        })),
+    }
+}
+
+pub fn check_derived(ix: &IndexedInstruments) -> Vec<Viol> {
+    let mut out = Vec::new();
+    let state = match build_state(ix) {
+        Ok(s) => s,
+        Err(p) => {
+            out.push(("C11/derived/engine-state/build-panics".into(), format!("EngineStateBuilder::build panicked: {p}")));
+            return out;
+        }
+    };
+    let (n_ex, n_as, n_in) = (ix.exchanges().len(), ix.assets().len(), ix.instruments().len());
+
+    // ---- static alignment: table[i] is entity i
+    if state.assets.0.len() != n_as {
+        out.push(("C11/derived/asset-states/count".into(), format!("{} asset states for {n_as} assets", state.assets.0.len())));
+    }
+    if state.instruments.0.len() != n_in {
+        out.push(("C11/derived/instrument-states/count".into(), format!("{} instrument states for {n_in} instruments", state.instruments.0.len())));
+    }
+    if state.connectivity.exchanges.len() != n_ex {
+        out.push(("C11/derived/connectivity/count".into(), format!("{} connectivity states for {n_ex} exchanges", state.connectivity.exchanges.len())));
+    }
+    for ka in ix.assets() {
+        let i = ka.key.index();
+        let key_ok = state.assets.0.get_index(i).map(|(k, _)| k.exchange == ka.value.exchange && k.asset == ka.value.asset.name_internal);
+        match guarded(|| state.assets.asset_index(&ka.key).clone()) {
+            Ok(st) => {
+                if key_ok != Some(true) || st.asset != ka.value.asset {
+                    out.push(("C11/derived/asset-states/index-holds-other-entity".into(),
+                        format!("asset_index({i}) holds {:?} (key {:?}); entity {i} is {:?}", st.asset, state.assets.0.get_index(i).map(|(k, _)| k), ka.value)));
+                } else if st.balance != Some(Timed::new(seeded(i), t0())) {
+                    out.push(("C11/derived/asset-states/seeded-balance-on-other-entity".into(),
+                        format!("asset {i} {:?} seeded with {:?} holds {:?}", ka.value, seeded(i), st.balance)));
+                }
+            }
+            Err(p) => out.push(("C11/derived/asset-states/index-missing".into(), format!("asset_index({i}) panicked: {p}"))),
+        }
+    }
+    for ki in ix.instruments() {
+        let i = ki.key.index();
+        match guarded(|| {
+            let st = state.instruments.instrument_index(&ki.key);
+            (st.key, st.instrument.clone())
+        }) {
+            Ok((key, inst)) => {
+                let want = ki.value.clone().map_exchange_key(ki.value.exchange.key);
+                let map_key_ok = state.instruments.0.get_index(i).map(|(k, _)| *k == ki.value.name_internal);
+                if key != ki.key || inst != want || map_key_ok != Some(true) {
+                    out.push(("C11/derived/instrument-states/index-holds-other-entity".into(),
+                        format!("instrument_index({i}) holds key {key} / {} ; entity {i} is {}", inst.name_internal, ki.value.name_internal)));
+                }
+            }
+            Err(p) => out.push(("C11/derived/instrument-states/index-missing".into(), format!("instrument_index({i}) panicked: {p}"))),
+        }
+        if state.instruments.0.get(&ki.value.name_internal).map(|s| s.key) != Some(ki.key) {
+            out.push(("C11/derived/instrument-states/name-resolves-to-other-index".into(),
+                format!("state of {} carries key {:?}, entity index is {i}", ki.value.name_internal, state.instruments.0.get(&ki.value.name_internal).map(|s| s.key))));
+        }
+    }
+    for ke in ix.exchanges() {
+        let i = ke.key.index();
+        if state.connectivity.exchanges.get_index(i).map(|(k, _)| *k) != Some(ke.value) {
+            out.push(("C11/derived/connectivity/index-holds-other-exchange".into(),
+                format!("connectivity[{i}] is {:?}, exchange {i} is {}", state.connectivity.exchanges.get_index(i).map(|(k, _)| *k), ke.value)));
+        }
+    }
+    if !out.is_empty() {
+        return out; // functional checks below would only repeat the same misalignment
+    }
+
+    // ---- functional alignment: an update addressed by index lands on the entity with that index (read by name)
+    for ka in ix.assets() {
+        let i = ka.key.index();
+        let ex = ix.find_exchange_index(ka.value.exchange).unwrap();
+        let mut s = state.clone();
+        let ev = AccountEvent {
+            exchange: ex,
+            kind: AccountEventKind::BalanceSnapshot(Snapshot(AssetBalance { asset: ka.key, balance: updated(i), time_exchange: t_plus(1) })),
+        };
+        if let Err(p) = guarded(|| { s.update_from_account(&ev); }) {
+            out.push(("C11/derived/asset-states/update-by-index-panics".into(), format!("balance for asset {i}: {p}")));
+            continue;
+        }
+        for kb in ix.assets() {
+            let j = kb.key.index();
+            let key = ExchangeAsset::<AssetNameInternal>::new(kb.value.exchange, kb.value.asset.name_internal.clone());
+            let got = s.assets.0.get(&key).and_then(|st| st.balance.as_ref().map(|b| b.value));
+            let want = if j == i { updated(i) } else { seeded(j) };
+            if got != Some(want) {
+                out.push(("C11/derived/asset-states/update-by-index-lands-on-other-entity".into(),
+                    format!("balance update for asset {i} {:?}: asset {j} {:?} holds {got:?}, expected {want:?}", ka.value, kb.value)));
+            }
+        }
+        for ke in ix.exchanges() {
+            let healthy = s.connectivity.exchanges.get(&ke.value).map(|c| c.account == Health::Healthy);
+            if healthy != Some(ke.key == ex) {
+                out.push(("C11/derived/connectivity/update-by-index-lands-on-other-exchange".into(),
+                    format!("account event for exchange {ex}: account link of {} healthy={healthy:?}", ke.value)));
+            }
+        }
+    }
+    let mut all_orders = state.clone();
+    for ki in ix.instruments() {
+        let i = ki.key.index();
+        let cid = format!("o{i}");
+        let ev = open_snapshot(ki.value.exchange.key, ki.key, &cid);
+        let mut s = state.clone();
+        if let Err(p) = guarded(|| { s.update_from_account(&ev); all_orders.update_from_account(&ev); }) {
+            out.push(("C11/derived/instrument-states/update-by-index-panics".into(), format!("order for instrument {i}: {p}")));
+            continue;
+        }
+        for kj in ix.instruments() {
+            let has = s.instruments.0.get(&kj.value.name_internal).map(|st| st.orders.0.contains_key(&ClientOrderId::new(cid.as_str())));
+            if has != Some(kj.key == ki.key) {
+                out.push(("C11/derived/instrument-states/update-by-index-lands-on-other-entity".into(),
+                    format!("order for instrument {i} ({}): instrument {} tracks it = {has:?}", ki.value.name_internal, kj.value.name_internal)));
+            }
+        }
+    }
+
+    // ---- per-exchange unindexed account snapshots generated from the state
+    match guarded(|| FnvHashMap::<ExchangeId, UnindexedAccountSnapshot>::from(&all_orders)) {
+        Err(p) => out.push(("C11/derived/account-snapshots/panics".into(), p)),
+        Ok(snaps) => {
+            let keys: BTreeSet<ExchangeId> = snaps.keys().copied().collect();
+            let want_keys: BTreeSet<ExchangeId> = ix.exchanges().iter().map(|k| k.value).collect();
+            if keys != want_keys {
+                out.push(("C11/derived/account-snapshots/exchange-keys-mismatch".into(), format!("{keys:?} vs {want_keys:?}")));
+            }
+            for (x, snap) in &snaps {
+                let got_b: BTreeMap<String, Balance> = snap.balances.iter().map(|b| (b.asset.name().to_string(), b.balance)).collect();
+                let want_b: BTreeMap<String, Balance> = ix.assets().iter().filter(|k| k.value.exchange == *x)
+                    .map(|k| (k.value.asset.name_exchange.name().to_string(), seeded(k.key.index()))).collect();
+                if snap.exchange != *x || got_b != want_b || snap.balances.len() != want_b.len() {
+                    out.push(("C11/derived/account-snapshots/balances-of-other-entities".into(),
+                        format!("{x}: snapshot.exchange={} balances {got_b:?}, expected {want_b:?}", snap.exchange)));
+                }
+                let got_i: BTreeMap<String, Vec<(ExchangeId, String, String)>> = snap.instruments.iter().map(|s| {
+                    (s.instrument.name().to_string(),
+                     s.orders.iter().map(|o| (o.key.exchange, o.key.instrument.name().to_string(), o.key.cid.0.to_string())).sorted().collect())
+                }).collect();
+                let want_i: BTreeMap<String, Vec<(ExchangeId, String, String)>> = ix.instruments().iter().filter(|k| k.value.exchange.value == *x)
+                    .map(|k| {
+                        let n = k.value.name_exchange.name().to_string();
+                        (n.clone(), vec![(*x, n, format!("o{}", k.key.index()))])
+                    }).collect();
+                if got_i != want_i || snap.instruments.len() != want_i.len() {
+                    out.push(("C11/derived/account-snapshots/instruments-of-other-entities".into(),
+                        format!("{x}: instruments {got_i:?}, expected {want_i:?}")));
+                }
+            }
+        }
+    }
+    out
+}
+
+// ---------------------------------------------------------------------------------------------------------
+// recording stub `ExecutionClient` (one type per menu exchange: `EXCHANGE` is an associated const)
+// ---------------------------------------------------------------------------------------------------------
+
+#[derive(Debug, Clone, PartialEq)]
+pub enum Rec {
+    Stream { stub: usize, assets: Vec<String>, instruments: Vec<String> },
+    Snapshot { stub: usize, assets: Vec<String>, instruments: Vec<String> },
+    Open { stub: usize, exchange: ExchangeId, instrument: String, cid: String },
+    Cancel { stub: usize, exchange: ExchangeId, instrument: String, cid: String },
+}
+
+/// What the stub answers to an open / cancel request (None = success echoing the request).
+#[derive(Debug, Clone, Default)]
+pub struct StubScript {
+    pub log: Vec<Rec>,
+    pub reject_with: Option<UnindexedOrderError>,
+    /// events the account stream yields (then it stays pending)
+    pub stream_events: Vec<UnindexedAccountEvent>,
+}
+
+pub type StubCfg = Arc<Mutex<StubScript>>;
+
+#[derive(Debug, Clone)]
+pub struct Stub<const X: usize> {
+    pub cfg: StubCfg,
+}
+
+impl<const X: usize> ExecutionClient for Stub<X> {
+    const EXCHANGE: ExchangeId = EX[X];
+    type Config = StubCfg;
+    type AccountStream = futures::stream::BoxStream<'static, UnindexedAccountEvent>;
+
+    fn new(config: Self::Config) -> Self {
+        Self { cfg: config }
+    }
+
+    async fn account_snapshot(
+        &self,
+        assets: &[AssetNameExchange],
+        instruments: &[InstrumentNameExchange],
+    ) -> Result<UnindexedAccountSnapshot, UnindexedClientError> {
+        self.cfg.lock().unwrap().log.push(Rec::Snapshot {
+            stub: X,
+            assets: assets.iter().map(|a| a.name().to_string()).collect(),
+            instruments: instruments.iter().map(|i| i.name().to_string()).collect(),
+        });
+        // echo exactly the names this client was configured with
+        Ok(UnindexedAccountSnapshot {
+            exchange: EX[X],
+            balances: assets.iter().map(|a| AssetBalance { asset: a.clone(), balance: Balance::default(), time_exchange: t0() }).collect(),
+            instruments: instruments.iter().map(|i| InstrumentAccountSnapshot { instrument: i.clone(), orders: vec![] }).collect(),
+        })
+    }
+
+    async fn account_stream(
+        &self,
+        assets: &[AssetNameExchange],
+        instruments: &[InstrumentNameExchange],
+    ) -> Result<Self::AccountStream, UnindexedClientError> {
+        let mut g = self.cfg.lock().unwrap();
+        g.log.push(Rec::Stream {
+            stub: X,
+            assets: assets.iter().map(|a| a.name().to_string()).collect(),
+            instruments: instruments.iter().map(|i| i.name().to_string()).collect(),
+        });
+        use futures::StreamExt;
+        Ok(futures::stream::iter(g.stream_events.clone()).chain(futures::stream::pending()).boxed())
+    }
+
+    async fn cancel_order(
+        &self,
+        request: OrderRequestCancel<ExchangeId, &InstrumentNameExchange>,
+    ) -> UnindexedOrderResponseCancel {
+        let mut g = self.cfg.lock().unwrap();
+        g.log.push(Rec::Cancel {
+            stub: X,
+            exchange: request.key.exchange,
+            instrument: request.key.instrument.name().to_string(),
+            cid: request.key.cid.0.to_string(),
+        });
+        OrderEvent {
+            key: OrderKey {
+                exchange: request.key.exchange,
+                instrument: request.key.instrument.clone(),
+                strategy: request.key.strategy.clone(),
+                cid: request.key.cid.clone(),
+            },
+            state: match &g.reject_with {
+                None => Ok(Cancelled { id: OrderId::new("stub-order"), time_exchange: t_plus(2) }),
+                Some(e) => Err(e.clone()),
+            },
+        }
+    }
+
+    async fn open_order(
+        &self,
+        request: OrderRequestOpen<ExchangeId, &InstrumentNameExchange>,
+    ) -> Order<ExchangeId, InstrumentNameExchange, Result<Open, UnindexedOrderError>> {
+        let mut g = self.cfg.lock().unwrap();
+        g.log.push(Rec::Open {
+            stub: X,
+            exchange: request.key.exchange,
+            instrument: request.key.instrument.name().to_string(),
+            cid: request.key.cid.0.to_string(),
+        });
+        Order {
+            key: OrderKey {
+                exchange: request.key.exchange,
+                instrument: request.key.instrument.clone(),
+                strategy: request.key.strategy.clone(),
+                cid: request.key.cid.clone(),
+            },
+            side: request.state.side,
+            price: request.state.price,
+            quantity: request.state.quantity,
+            kind: request.state.kind,
+            time_in_force: request.state.time_in_force,
+            state: match &g.reject_with {
+                None => Ok(Open { id: OrderId::new("stub-order"), time_exchange: t_plus(2), filled_quantity: Decimal::ZERO }),
+                Some(e) => Err(e.clone()),
+            },
+        }
+    }
+
+    async fn fetch_balances(&self) -> Result<Vec<AssetBalance<AssetNameExchange>>, UnindexedClientError> {
+        Ok(vec![])
+    }
+
+    async fn fetch_open_orders(
+        &self,
+    ) -> Result<Vec<Order<ExchangeId, InstrumentNameExchange, Open>>, UnindexedClientError> {
+        Ok(vec![])
+    }
+
+    async fn fetch_trades(
+        &self,
+        _time_since: DateTime<Utc>,
+    ) -> Result<Vec<Trade<QuoteAsset, InstrumentNameExchange>>, UnindexedClientError> {
+        Ok(vec![])
+    }
+}
+
+// ---------------------------------------------------------------------------------------------------------
+// layer "links": the real ExecutionBuilder, init futures and manager futures, driven by hand (E-ENV)
+// ---------------------------------------------------------------------------------------------------------
+
+type BoxFut = Pin<Box<dyn Future<Output = ()> + Send + 'static>>;
+
+/// `clients`: menu-exchange positions (into `EX`) that get a stub client, in `add_live` order.
+pub fn check_links(ix: &IndexedInstruments, clients: &[usize]) -> Vec<Viol> {
+    let mut out = Vec::new();
+    let cfg: StubCfg = Arc::new(Mutex::new(StubScript::default()));
+    let built = guarded(|| {
+        let mut b = ExecutionBuilder::new(ix);
+        for &x in clients {
+            let t = Duration::from_secs(5);
+            b = match x {
+                0 => b.add_live::<Stub<0>>(cfg.clone(), t),
+                1 => b.add_live::<Stub<1>>(cfg.clone(), t),
+                _ => b.add_live::<Stub<2>>(cfg.clone(), t),
+            }
+            .map_err(|e| format!("{e:?}"))?;
+        }
+        Ok::<_, String>(b.build())
+    });
+    let build = match built {
+        Ok(Ok(b)) => b,
+        Ok(Err(e)) => {
+            out.push(("C11/derived/execution-links/builder-rejects-defined-exchange".into(), e));
+            return out;
+        }
+        Err(p) => {
+            out.push(("C11/derived/execution-links/builder-panics".into(), p));
+            return out;
+        }
+    };
+
+    // ---- the table itself: position i is exchange i; a link exists iff a client was added for that exchange
+    let entries: Vec<(ExchangeId, bool)> = (&build.execution_tx_map).into_iter().map(|(id, tx)| (*id, tx.is_some())).collect();
+    if entries.len() != ix.exchanges().len() {
+        out.push(("C11/derived/execution-links/count".into(), format!("{} entries for {} exchanges", entries.len(), ix.exchanges().len())));
+    }
+    for ke in ix.exchanges() {
+        let i = ke.key.index();
+        let has_client = clients.iter().any(|&x| EX[x] == ke.value);
+        match entries.get(i) {
+            Some((id, present)) if *id == ke.value => {
+                if *present != has_client {
+                    out.push(("C11/derived/execution-links/link-presence-mismatch".into(),
+                        format!("entry {i} ({}) has link={present}, client added={has_client}", ke.value)));
+                }
+            }
+            other => out.push(("C11/derived/execution-links/index-holds-other-exchange".into(),
+                format!("entry {i} is {other:?}, exchange {i} is {}", ke.value))),
+        }
+        let found = build.execution_tx_map.find(&ke.key).is_ok();
+        if found != has_client {
+            out.push(("C11/derived/execution-links/find-presence-mismatch".into(),
+                format!("find({i}) ok={found}, client added for {}={has_client}", ke.value)));
+        }
+    }
+    if build.execution_tx_map.find(&ExchangeIndex(ix.exchanges().len())).is_ok() {
+        out.push(("C11/derived/execution-links/absent-index-found".into(), "find(len) is Ok".into()));
+    }
+
+    // ---- behaviour: initialise every manager, then route one Shutdown through every link
+    let rt = paused_rt();
+    let _g = rt.enter();
+    let (flag, waker) = flag_waker();
+    let mut managers: Vec<(ExchangeId, Option<BoxFut>)> = Vec::new();
+    let mut forwards: Vec<BoxFut> = Vec::new();
+    let barter::execution::builder::ExecutionBuild { execution_tx_map, account_channel, futures } = build;
+    for mut init in futures.execution_init_futures {
+        let before = cfg.lock().unwrap().log.len();
+        let polled = guarded(|| poll_quiesce(init.as_mut(), &flag, &waker));
+        // which exchange did this init future talk to? (observed at the client, not assumed from the order)
+        let who: BTreeSet<usize> = cfg.lock().unwrap().log[before..].iter().map(|r| match r {
+            Rec::Stream { stub, .. } | Rec::Snapshot { stub, .. } | Rec::Open { stub, .. } | Rec::Cancel { stub, .. } => *stub,
+        }).collect();
+        match polled {
+            Ok(Poll::Ready(Ok((m, f)))) if who.len() == 1 => {
+                managers.push((EX[*who.iter().next().unwrap()], Some(m)));
+                forwards.push(f);
+            }
+            Ok(Poll::Ready(Ok(_))) => panic!("harness: init future touched clients {who:?}"),
+            Ok(Poll::Ready(Err(e))) => out.push(("C11/derived/execution-links/manager-init-fails".into(), format!("{e:?}"))),
+            Ok(Poll::Pending) => panic!("harness: ExecutionManager::init stayed pending with an immediate stub"),
+            Err(p) => out.push(("C11/derived/execution-links/manager-init-panics".into(), p)),
+        }
+    }
+    if !out.is_empty() {
+        return out;
+    }
+    // every manager's account stream starts with a snapshot: it must carry exactly the indices of that exchange
+    let mut rx = account_channel.rx;
+    for f in forwards.iter_mut() {
+        if let Err(p) = guarded(|| poll_quiesce(f.as_mut(), &flag, &waker)) {
+            out.push(("C11/derived/execution-links/account-stream-panics".into(), p));
+        }
+    }
+    let mut seen: BTreeMap<usize, (BTreeSet<usize>, BTreeSet<usize>, usize)> = BTreeMap::new();
+    while let Ok(ev) = rx.rx.try_recv() {
+        if let AccountStreamEvent::Item(AccountEvent { exchange, kind: AccountEventKind::Snapshot(s) }) = ev {
+            seen.insert(exchange.index(), (
+                s.balances.iter().map(|b| b.asset.index()).collect(),
+                s.instruments.iter().map(|i| i.instrument.index()).collect(),
+                s.exchange.index(),
+            ));
+        }
+    }
+    let mut want_seen = BTreeMap::new();
+    for ke in ix.exchanges().iter().filter(|ke| clients.iter().any(|&x| EX[x] == ke.value)) {
+        want_seen.insert(ke.key.index(), (
+            ix.assets().iter().filter(|k| k.value.exchange == ke.value).map(|k| k.key.index()).collect::<BTreeSet<_>>(),
+            ix.instruments().iter().filter(|k| k.value.exchange.value == ke.value).map(|k| k.key.index()).collect::<BTreeSet<_>>(),
+            ke.key.index(),
+        ));
+    }
+    if seen != want_seen {
+        out.push(("C11/derived/execution-links/initial-snapshot-carries-other-indices".into(),
+            format!("snapshots by exchange index (assets, instruments, exchange): {seen:?}, expected {want_seen:?}")));
+    }
+    // a Shutdown sent through link i terminates the manager of exchange i and no other
+    for ke in ix.exchanges() {
+        let Ok(tx) = execution_tx_map.find(&ke.key) else { continue };
+        if tx.send(ExecutionRequest::Shutdown).is_err() {
+            out.push(("C11/derived/execution-links/link-closed".into(), format!("send through link {} failed", ke.key)));
+            continue;
+        }
+        let mut finished = Vec::new();
+        for (id, m) in managers.iter_mut() {
+            if let Some(fut) = m {
+                match guarded(|| poll_quiesce(fut.as_mut(), &flag, &waker)) {
+                    Ok(Poll::Ready(())) => { finished.push(*id); *m = None; }
+                    Ok(Poll::Pending) => {}
+                    Err(p) => { finished.push(*id); *m = None; out.push(("C11/derived/execution-links/manager-panics".into(), p)); }
+                }
+            }
+        }
+        if finished != vec![ke.value] {
+            let cause = if finished.is_empty() { "send-reaches-no-manager" } else { "send-reaches-other-manager" };
+            out.push((format!("C11/derived/execution-links/{cause}"),
+                format!("Shutdown through link {} ({}) terminated managers {finished:?}", ke.key, ke.value)));
+        }
+    }
+    out
+}
+
+// ---------------------------------------------------------------------------------------------------------
+// driver
+// ---------------------------------------------------------------------------------------------------------
+
+fn digits(mut n: u64, len: usize, base: u64) -> Vec<usize> {
+    let mut v = vec![0usize; len];
+    for d in v.iter_mut().rev() {
+        *d = (n % base) as usize;
+        n /= base;
+    }
+    v
+}
+
+fn set_of(seq: &[usize]) -> Vec<usize> {
+    seq.iter().copied().sorted().dedup().collect()
+}
+
+/// All (clients subset, add order) variants for the exchanges present in `ix`.
+fn client_variants(ix: &IndexedInstruments) -> Vec<Vec<usize>> {
+    let present: Vec<usize> = (0..EX.len()).filter(|&x| ix.exchanges().iter().any(|k| k.value == EX[x])).collect();
+    let mut v = Vec::new();
+    for k in 0..=present.len() {
+        for perm in present.iter().copied().permutations(k) {
+            v.push(perm);
+        }
+    }
+    v
+}
+
+fn eval_index(menu: &[Def], seq: &[usize]) -> (Vec<Viol>, Option<IndexedInstruments>) {
+    let defs: Vec<&Def> = seq.iter().map(|&i| &menu[i]).collect();
+    match build_indexed(seq, menu) {
+        Err(p) => (vec![("C11/build/panics".into(), format!("IndexedInstrumentsBuilder panicked: {p}"))], None),
+        Ok(ix) => {
+            let mut out = check_indexed(&defs, &ix, menu);
+            // order independence: the same multiset inserted in canonical (menu) order without duplicates
+            let canon = set_of(seq);
+            if canon != seq {
+                match build_indexed(&canon, menu) {
+                    Ok(c) if c == ix => {}
+                    Ok(_) => out.push((
+                        "C11/order-independence/differs-from-canonical-insertion".into(),
+                        format!("insertion {seq:?} and insertion {canon:?} give different IndexedInstruments"),
+                    )),
+                    Err(_) => {}
+                }
+            }
+            (out, Some(ix))
+        }
+    }
+}
+
+pub fn run(ctx: &Ctx) -> Outcome {
+    install_quiet_hook();
+    let menu = menu();
+    let base = menu.len() as u64;
+    let max_len: usize = ctx.tier.pick(4, 6);
+    let max_perm: usize = ctx.tier.pick(6, menu.len());
+
+    // ---- layer index
+    let evaluations = AtomicU64::new(0);
+    let with_dups = AtomicU64::new(0);
+    let distinct = Distinct::default();
+    let samples = Samples::new(100_000); // candidates; sorted and cut to 6 below (deterministic under parallelism)
+    for len in 0..=max_len {
+        let total = base.pow(len as u32);
+        (0..total).into_par_iter().for_each(|n| {
+            let seq = digits(n, len, base);
+            let (viols, ix) = eval_index(&menu, &seq);
+            evaluations.fetch_add(1, Ordering::Relaxed);
+            if set_of(&seq).len() != seq.len() {
+                with_dups.fetch_add(1, Ordering::Relaxed);
+            }
+            if let Some(ix) = &ix {
+                distinct.add(&(ix.exchanges(), ix.assets(), ix.instruments()));
+                if len == 3 && n % 97 == 5 {
+                    samples.offer(|| json!({"layer": "index", "seq": seq, "exchanges": ix.exchanges().len(), "assets": ix.assets().len(), "instruments": ix.instruments().len()}));
+                }
+            }
+            for (sig, detail) in viols {
+                ctx.violate(sig, detail, json!({"layer": "index", "seq": seq}));
+            }
+        });
+    }
+
+    // ---- every insertion order of every subset of the menu (no repetition), up to the full menu
+    let perm_evals = AtomicU64::new(0);
+    for k in (max_len + 1)..=max_perm {
+        let perms: Vec<Vec<usize>> = (0..menu.len()).permutations(k).collect();
+        perms.into_par_iter().for_each(|seq| {
+            let (viols, ix) = eval_index(&menu, &seq);
+            perm_evals.fetch_add(1, Ordering::Relaxed);
+            if let Some(ix) = &ix {
+                distinct.add(&(ix.exchanges(), ix.assets(), ix.instruments()));
+            }
+            for (sig, detail) in viols {
+                ctx.violate(sig, detail, json!({"layer": "index", "seq": seq}));
+            }
+        });
+    }
+
+    // ---- layers derived + links: every distinct non-empty set of definitions
+    let derived_evals = AtomicU64::new(0);
+    let link_runs = AtomicU64::new(0);
+    let link_distinct = Distinct::default();
+    (1u32..(1 << menu.len())).into_par_iter().for_each(|mask| {
+        let set: Vec<usize> = (0..menu.len()).filter(|i| mask & (1 << i) != 0).collect();
+        let (viols, ix) = eval_index(&menu, &set);
+        let index_ok = viols.is_empty();
+        for (sig, detail) in viols {
+            ctx.violate(sig, detail, json!({"layer": "index", "seq": set}));
+        }
+        // derived tables are judged against a correct index table only (no cascade of one defect)
+        let Some(ix) = ix.filter(|_| index_ok) else { return };
+        derived_evals.fetch_add(1, Ordering::Relaxed);
+        for (sig, detail) in check_derived(&ix) {
+            ctx.violate(sig, detail, json!({"layer": "derived", "set": set}));
+        }
+        for clients in client_variants(&ix) {
+            link_runs.fetch_add(1, Ordering::Relaxed);
+            link_distinct.add(&(ix.exchanges().iter().map(|k| k.value).collect::<Vec<_>>(), clients.clone()));
+            for (sig, detail) in check_links(&ix, &clients) {
+                ctx.violate(sig, detail, json!({"layer": "links", "set": set, "clients": clients}));
+            }
+        }
+    });
+
+    let evals = evaluations.load(Ordering::Relaxed);
+    Outcome {
+        level: "exploration",
+        coverage: json!({
+            "evaluations": evals + perm_evals.load(Ordering::Relaxed) + derived_evals.load(Ordering::Relaxed) + link_runs.load(Ordering::Relaxed),
+            "index_sequences": evals,
+            "index_permutations_longer_than_max_sequence_length": perm_evals.load(Ordering::Relaxed),
+            "index_sequences_with_duplicates": with_dups.load(Ordering::Relaxed),
+            "distinct_nontrivial": distinct.len(),
+            "derived_sets": derived_evals.load(Ordering::Relaxed),
+            "execution_link_runs": link_runs.load(Ordering::Relaxed),
+            "execution_link_distinct_configurations": link_distinct.len(),
+            "max_sequence_length": max_len,
+            "max_permutation_size": max_perm,
+            "menu_size": menu.len(),
+            "exhaustive": true,
+            "rule": "every sequence (repetition allowed => duplicates, every insertion order) of length <= max_sequence_length over the 8-definition menu, plus every permutation of every larger subset up to max_permutation_size definitions, through the real IndexedInstrumentsBuilder, oracle from the definitions; every non-empty subset through EngineStateBuilder / update_from_account / account-snapshot generation; every subset x (exchanges with client, add order) through ExecutionBuilder with manager futures polled by hand on a paused runtime",
+            "samples": samples.take().into_iter().sorted_by_key(|v| v.to_string()).take(6).collect::<Vec<_>>(),
+        }),
+        assumptions: vec![
+            "InstrumentNameInternal identifies an instrument (unique across exchanges) and an exchange names an asset one way (documented contracts)".into(),
+            "menu of 8 definitions over 3 exchanges (spot, perpetual, future, option; settlement-only and unit-only assets; shared asset names)".into(),
+            "execution links: stub ExecutionClient per exchange; link routing observed with one Shutdown per link".into(),
+        ],
+    }
+}
+
+pub fn replay(ctx: &Ctx, case: &Value) {
+    install_quiet_hook();
+    let menu = menu();
+    let list = |k: &str| -> Vec<usize> {
+        case[k].as_array().map(|a| a.iter().filter_map(|v| v.as_u64().map(|x| x as usize)).collect()).unwrap_or_default()
+    };
+    let viols = match case["layer"].as_str() {
+        Some("index") => eval_index(&menu, &list("seq")).0,
+        Some("derived") => match build_indexed(&list("set"), &menu) {
+            Ok(ix) => check_derived(&ix),
+            Err(p) => vec![("C11/build/panics".into(), p)],
+        },
+        Some("links") => match build_indexed(&list("set"), &menu) {
+            Ok(ix) => check_links(&ix, &list("clients")),
+            Err(p) => vec![("C11/build/panics".into(), p)],
+        },
+        other => {
+            eprintln!("MACHINERY: unknown C11 replay layer {other:?}");
+            std::process::exit(2)
+        }
+    };
+    for (sig, detail) in viols {
+        ctx.violate(sig, detail, case.clone());
+    }
 }
